@@ -4,6 +4,7 @@ import (
 	"fmt"
 	"math/rand"
 
+	"google.golang.org/protobuf/proto"
 	"google.golang.org/protobuf/types/descriptorpb"
 )
 
@@ -21,9 +22,26 @@ func RandomSchemas(seed int64, n int) []*Schema {
 		f.EnumType = append(f.EnumType, enum("E", "E_ZERO", 0, "E_A", 1+rng.Intn(100), "E_NEG", -1-rng.Intn(1000)))
 		nMsgs := 2 + rng.Intn(4)
 		var msgs []*mb
+		var top []*mb
 		for m := 0; m < nMsgs; m++ {
-			msgs = append(msgs, newMsg(pkg, fmt.Sprintf("M%d", m)))
+			// about a third of the messages are nested in an earlier one
+			if m > 0 && rng.Intn(3) == 0 {
+				parent := msgs[rng.Intn(len(msgs))]
+				msgs = append(msgs, parent.nested(fmt.Sprintf("N%d", m)))
+				continue
+			}
+			t := newMsg(pkg, fmt.Sprintf("M%d", m))
+			msgs = append(msgs, t)
+			top = append(top, t)
 		}
+		// a nested enum with two names for one number
+		if rng.Intn(2) == 0 {
+			ne := enum("Alias", "AL_ZERO", 0, "AL_ONE", 1, "AL_UNO", 1)
+			ne.Options = &descriptorpb.EnumOptions{AllowAlias: proto.Bool(true)}
+			msgs[0].msg.EnumType = append(msgs[0].msg.EnumType, ne)
+		}
+		oneofPool := []string{"value", "kind", "sum", "choice", "payload", "body"}
+		fieldPool := []string{"type", "get", "set", "has", "clear", "range", "new", "descriptor", "interface", "mutable", "is_valid", "x", "n", "l", "i", "options", "size", "input", "b", "v", "k", "f", "fd", "err", "state", "string", "reset"}
 		for mi, m := range msgs {
 			used := map[int32]bool{}
 			num := func() int32 {
@@ -64,7 +82,25 @@ func RandomSchemas(seed int64, n int) []*Schema {
 			allKinds := append(append([]T{}, scalarKinds...), tEnum, tMessage)
 			nFields := 3 + rng.Intn(10)
 			fi := 0
-			fname := func() string { fi++; return fmt.Sprintf("f%d_%d", mi, fi) }
+			usedNames := map[string]bool{}
+			fname := func() string {
+				fi++
+				if rng.Intn(5) == 0 {
+					if n := fieldPool[rng.Intn(len(fieldPool))]; !usedNames[n] {
+						usedNames[n] = true
+						return n
+					}
+				}
+				return fmt.Sprintf("f%d_%d", mi, fi)
+			}
+			usedOneofs := map[string]bool{}
+			oname := func(k int) string {
+				if n := oneofPool[rng.Intn(len(oneofPool))]; !usedOneofs[n] {
+					usedOneofs[n] = true
+					return n
+				}
+				return fmt.Sprintf("o%d_%d", mi, k)
+			}
 			for k := 0; k < nFields; k++ {
 				kind := allKinds[rng.Intn(len(allKinds))]
 				switch rng.Intn(5) {
@@ -80,7 +116,7 @@ func RandomSchemas(seed int64, n int) []*Schema {
 					kk := mapKeyKinds[rng.Intn(len(mapKeyKinds))]
 					m.mapField(fname(), num(), kk, kind, typeOf(kind))
 				case 4:
-					o := m.oneof(fmt.Sprintf("o%d_%d", mi, k))
+					o := m.oneof(oname(k))
 					nm := 1 + rng.Intn(4)
 					for j := 0; j < nm; j++ {
 						mk := allKinds[rng.Intn(len(allKinds))]
@@ -89,10 +125,27 @@ func RandomSchemas(seed int64, n int) []*Schema {
 				}
 			}
 		}
-		for _, m := range msgs {
+		for _, m := range top {
 			f.MessageType = append(f.MessageType, m.msg)
 		}
-		out = append(out, &Schema{Name: name, Files: []*descriptorpb.FileDescriptorProto{f}, Tier: "thorough"})
+		files := []*descriptorpb.FileDescriptorProto{f}
+		// every other schema has a second file in another Go package that uses the first one's types
+		if i%2 == 1 {
+			pkg2 := pkg + ".sub"
+			f2 := file("vc/"+name+"_sub.proto", pkg2, goPkg(name, "sub"), f.GetName())
+			u := newMsg(pkg2, "M0")
+			o := u.oneof("value")
+			target := msgs[rng.Intn(len(msgs))]
+			u.member(o, "remote", 1, tMessage, target.path)
+			u.member(o, "local", 2, tMessage, u.path)
+			u.member(o, "e", 3, tEnum, "."+pkg+".E")
+			u.repeated("all", 4, tMessage, msgs[rng.Intn(len(msgs))].path)
+			u.mapField("by_id", 5, tInt64, tMessage, msgs[rng.Intn(len(msgs))].path)
+			u.field("type", 6, tEnum, "."+pkg+".E")
+			f2.MessageType = append(f2.MessageType, u.msg)
+			files = append(files, f2)
+		}
+		out = append(out, &Schema{Name: name, Files: files, Tier: "thorough"})
 	}
 	return out
 }
